@@ -933,6 +933,45 @@ pub proof fn lemma_ft_call(s: &Schedule, net: Arc<Network>, done: Seq<JobV>, job
 {
     reveal(Schedule::ft_inv);
 }
+/// C06 / C17 "There should be at least the overflow depot available.": n is a start depot node of the network whose depot lists
+/// the vehicle type of every given tour WITHOUT per-type limit and whose total capacity is at least the number of given tours.
+/// The overflow depot Network::new adds is meant to be such a depot: it lists every vehicle type of the network without limit
+/// (slices/network_new.vs, C17.overflow_depot.no_per_type_limit_for_any_type); its total capacity is a computed number (C17,
+/// finding D5) that is NOT related to the number of tours handed to from_tours in any slice -- hence a stated precondition
+pub open spec fn depot_hosts_all(net: &Network, jobs: Seq<JobV>, n: NodeIdx) -> bool {
+    let dep = net.sp_depot(net.sp_depot_idx_of(n));
+    &&& net.start_depot_nodes@.contains(n)
+    &&& forall|i: int| 0 <= i < jobs.len() ==> dep.allowed_types@.contains_key((#[trigger] jobs[i]).0) && dep.allowed_types@[jobs[i].0] is None
+    &&& jobs.len() <= dep.total_capacity
+}
+pub open spec fn some_depot_hosts_all(net: &Network, jobs: Seq<JobV>) -> bool {
+    exists|n: NodeIdx| #[trigger] depot_hosts_all(net, jobs, n)
+}
+/// C06: the preconditions spawn_vehicle_for_path got from find_best_start_depot_for_spawning hold in EVERY state from_tours can be
+/// in before it spawns the next given tour: the usage table is exact (clause of sv_ok), so it only counts the vehicles spawned
+/// so far -- fewer than there are given tours, hence fewer than the total capacity of the depot that hosts them all, which
+/// lists the type without limit (lemma_depot_without_type_limit_suffices); the counts are small for the same reason
+pub proof fn lemma_ft_call_depot(s: &Schedule, net: Arc<Network>, jobs: Seq<JobV>, done: Seq<JobV>, job: JobV)
+    requires
+        s.ft_inv(net, done), done.len() < jobs.len(), jobs[done.len() as int] == job, job_ok(&net, job),
+        net.start_depots_ok(), some_depot_hosts_all(&net, jobs),
+    ensures
+        s.network.start_depots_ok(),
+        s.usage_counts_small(job.0, s.depot_usage@),
+        s.some_depot_has_room(job.0, s.depot_usage@), // @obl C06.from_tours.expect_in_find_best_start_depot_cannot_panic
+{
+    reveal(Schedule::ft_inv);
+    let du = s.depot_usage@;
+    assert(s.network.vehicle_types.ids_sorted@ == sched_types(s));
+    // magnitude: the counts of an exact usage table are at most the number of vehicles
+    lemma_usage_counts_small(s, job.0);
+    let n = choose|n: NodeIdx| #[trigger] depot_hosts_all(&net, jobs, n);
+    let d = s.network.sp_depot_idx_of(n);
+    // in total at most done.len() vehicles start at the depot: fewer than there are given tours
+    lemma_usage_counts_le_vehicles(s, d, job.0);
+    assert(jobs[done.len() as int].0 == job.0);
+    lemma_depot_without_type_limit_suffices(s, n, job.0, du);
+}
 /// C10 (ids) after one spawn
 pub proof fn lemma_step_ids(s0: &Schedule, s1: &Schedule, vt: VehicleTypeIdx, path: Seq<NodeIdx>, id: VehicleIdx)
     requires s0.sv_ids_ok(), s0.vehicle_counter <= 0xffff, s0.spawned(vt, path, s1, id), s0.listed(vt, s1, id),
